@@ -83,3 +83,14 @@ def register(claim):
           NOTE_COMMON + " That the same messages come out for every partition of every stream is the behaviour itself and is not decided; "
           "the rules decide the contracts whose violation makes a partition matter.",
           "DESIGN.md#c03")
+
+    claim("C01", "folded search literals + def-use to slice bounds, reaching definitions of the emitted MsgSeqNum with guard facts, exhaustive check of the folded group table (rows, nesting chains), "
+          "block pairing/typestate rules on the group parser, per-iteration path enumeration",
+          "Static, all messages: frame extent cut only at SOH-anchored patterns and returned bytes = that slice; '=' split keeps the value; one separator "
+          "constant and a total single-byte codec on both sides; exactly one definition reaches 34= (allocation iff not raw, not SequenceReset, not "
+          "PossDup; allocator returns the pre-increment value); 49/56 from the session, mirrored by validate_comp_ids; skip set = self-emitted tags; "
+          "all 29 group rows duplicate-free, acyclic, chain-disjoint, no framing tag; _addTag recursive in container order; push/pop/item-split blocks "
+          "paired and the field stored exactly once on every path of a loop iteration.",
+          NOTE_COMMON + " Equality of arbitrary decoded values with the encoded ones is value-level behaviour and not decided; the parser-stack rule is "
+          "phrased over this decoder's block structure (a restructured parser needs the rule re-confirmed: reported as ANALYSIS-ERROR where anchors vanish).",
+          "DESIGN.md#c01")
